@@ -15,6 +15,7 @@ R14.3  closure of deferred collections: when a writer emits the defining element
 Not decided: symmetric bracket links / AST forest shape (properties of the tokenizer's data).
 """
 import ast
+import re
 import collections
 
 from .common.facts import walk, walk_parents, strip, strip_all, call_args, AnalysisBroken
@@ -58,6 +59,7 @@ def run(ctx):
     for r in roots:
         reach.setdefault(F.key(r), (r, None, None))
     W = xmlmodel.Writer(F, is_writer=lambda fn: True, max_depth=0)
+    r14_4(ctx, F, set(reach))
 
     def literal_valued(desc, node, f):
         if not desc.startswith('call:'):
@@ -310,3 +312,62 @@ def run(ctx):
                    ('%s.%s (attribute %r) is resolved through the IdMap in setId()' % (cname, fld, attr)) if used else
                    ('%s stores attribute %r in self.%s but setId() never resolves it' % (cname, attr, fld)), '%s:%d' % (PY, setid[0].lineno))
     ctx.floor('R14.2 (element, attribute) reads compared', npairs, 120)
+
+
+def r14_4(ctx, F, writer_keys):
+    """R14.4  balanced container elements: where a function writes the start tag of a container element (<dump ...>) and its end tag (</dump>) in separate
+    statements, both are statements of the same block and everything between them only writes the dump (stream operations, std:: calls, the dump writers, toxml).
+    A call of code that can throw (explicit throw reachable, see C13) or a jump out of the block between the two tags leaves the element open on that path and the file is
+    no longer well-formed."""
+    ctx.rule('R14.4', 'start and end tag of a container element are written in one block with only dump writers in between')
+    from .common.throws import Throws
+    TH = Throws(F)
+    n = 0
+    for f in F.all_fns():
+        if f['file'] != 'lib/cppcheck.cpp':
+            continue
+        b = F.body(f)
+        if b is None:
+            continue
+        for blk, parents in walk_parents(b['body']):
+            if blk.get('k') != 'CompoundStmt':
+                continue
+            kids = blk.get('c', [])
+
+            def lits(st):
+                return [y.get('v') or '' for y in walk(st) if y.get('k') == 'StringLiteral']
+            opens = [i for i, st in enumerate(kids) if st.get('k') not in ('CompoundStmt', 'IfStmt', 'ForStmt', 'WhileStmt', 'CXXForRangeStmt', 'CXXTryStmt') and
+                     any(re.match(r'^\s*<dump[ >]', v) for v in lits(st))]
+            for oi in opens:
+                n += 1
+                same_stmt_close = any('</dump>' in v for v in lits(kids[oi]))
+                ci = next((j for j in range(oi, len(kids)) if any('</dump>' in v for v in lits(kids[j])) and
+                           kids[j].get('k') not in ('IfStmt', 'ForStmt', 'WhileStmt', 'CXXForRangeStmt', 'CXXTryStmt')), None)
+                where = '%s:%s' % (f['file'], kids[oi]['l'])
+                if ci is None:
+                    ctx.ob('R14.4', 'balanced:%s#%d' % (f['name'], n), False,
+                           '%s writes <dump ...> at line %s but the matching </dump> is not a statement of the same block: a path that leaves the block in between '
+                           '(exception, continue, return) produces a dump file that is not well-formed' % (f['name'], kids[oi]['l']), where)
+                    continue
+                bad = None
+                for st in kids[oi + 1:ci]:
+                    for y in walk(st):
+                        if y.get('k') in ('ReturnStmt', 'ContinueStmt', 'BreakStmt', 'CXXThrowExpr'):
+                            bad = ('%s at line %s' % (y['k'], y['l']))
+                        if y.get('k') in ('CallExpr', 'CXXMemberCallExpr') and y.get('fid'):
+                            fn = y.get('fn') or ''
+                            if fn.startswith('std::') or fn in ('ErrorLogger::toxml',) or fn.startswith(('Standards::', 'Settings::')):
+                                continue
+                            targets = F.resolve(f, y['fid'], y.get('virt', False))
+                            if any(F.key(g) in writer_keys for g in targets):
+                                continue
+                            if targets and all(not TH.escape.get(F.key(g)) for g in targets):
+                                continue      # cannot throw (no explicit throw reachable): accessors, formatting helpers
+                            bad = 'call of %s at line %s' % (fn, y['l'])
+                    if bad:
+                        break
+                ctx.ob('R14.4', 'balanced:%s#%d' % (f['name'], n), bad is None,
+                       ('%s writes <dump> and </dump> in one block with only dump writers in between' % f['name']) if bad is None else
+                       ('%s has a %s between the <dump ...> start tag (line %s) and the </dump> end tag: when that code throws or leaves the block, the element stays open and '
+                        'the --dump file is not well-formed XML' % (f['name'], bad, kids[oi]['l'])), where)
+    ctx.floor('R14.4 container start tags written in lib/cppcheck.cpp', n, 2)
